@@ -19,10 +19,16 @@ the same thing).
 Readers (what a parser on the consuming side does):
 * `unescapeEnt`  entity / character-reference resolution as quick-xml's `unescape` and every XML
                  parser do it (strict: unknown or unterminated entity ⇒ failure);
-* `scanAttr`     reads an XML attribute value up to the closing `"`: fails on a raw `<`, turns
-                 literal TAB/LF/CR into a space (XML 1.0 §3.3.3), resolves entities;
-* `scanXmlText`  character data up to the next `<` (fails on a raw `]]>`);
-* `scanHtmlAttr`, `scanHtmlText`  the same for a double-quoted HTML attribute and HTML text;
+* `scanAttr`     reads an XML attribute value up to the closing `"` as a conforming parser does
+                 (the same reader as `Writers.CobBytes.readAttrValue`, which is tied to expat):
+                 fails on a raw `<`, normalises line ends (XML 1.0 §2.11), turns literal TAB/LF
+                 into a space (§3.3.3), resolves entities, rejects what is not an XML `Char`
+                 (C0 controls other than TAB/LF/CR, U+FFFE, U+FFFF: §2.2);
+* `scanXmlText`  character data up to the next `<` (fails on a raw `]]>`; CR LF / CR read as LF;
+                 non-`Char`s rejected) – `Writers.CobBytes.readText`;
+* `scanHtmlAttr`, `scanHtmlText`  a double-quoted HTML attribute value and HTML text (newline
+                 normalisation, character references; no `Char` check: HTML has none);
+* `printable`, `textSafe`  the guards of the scan theorems (the property's quantifier);
 * `scanJson`     reads a JSON string body up to the closing `"` (RFC 8259: escapes resolved, raw
                  control bytes rejected).
 * the breadcrumb of templates/macros.html 15-17 and the row links of templates/index.html.
@@ -187,43 +193,82 @@ def containsSeq (p : Bytes) : Bytes → Bool
 /-- XML 1.0 §3.3.3: a literal TAB, LF or CR inside an attribute value is read as a space -/
 def normAttrByte (b : Nat) : Nat := if b = 9 ∨ b = 10 ∨ b = 13 then 32 else b
 
-/-- An XML parser positioned just after the opening `"` of an attribute value: the value it
-reports and the input that follows the closing quote. -/
+/-- XML 1.0 §2.11 (and the input-stream preprocessing of HTML): CR LF and a lone CR reach the
+application as LF. (The same function as `Writers.CobBytes.normEol`: `C18_readers_agree`.) -/
+def eolNorm : Bytes → Bytes
+  | [] => []
+  | [13] => [10]
+  | 13 :: 10 :: r => 10 :: eolNorm r
+  | 13 :: b :: r => 10 :: eolNorm (b :: r)
+  | b :: r => b :: eolNorm r
+
+/-- an XML `Char` as far as single bytes go (XML 1.0 §2.2): no C0 control other than TAB, LF, CR -/
+def xmlByteOk (b : Nat) : Bool := 32 ≤ b || b == 9 || b == 10 || b == 13
+
+/-- U+FFFE and U+FFFF (UTF-8 `EF BF BE`, `EF BF BF`) are not XML `Char`s either -/
+def noNonCharSeq (v : Bytes) : Bool :=
+  !containsSeq [239, 191, 190] v && !containsSeq [239, 191, 191] v
+
+/-- a decoded value made of XML `Char`s only; anything else makes the document ill-formed -/
+def xmlCharsOk (v : Bytes) : Bool := v.all xmlByteOk && noNonCharSeq v
+
+/-- The property's quantifier ("printable characters: no control characters or line
+terminators") as far as the readers can tell the difference: no C0 control byte and no
+U+FFFE / U+FFFF. (DEL, the C1 controls and U+2028/2029 are outside the property's quantifier too,
+but every reader below returns them unchanged, so the theorems need not exclude them.) -/
+def printable (v : Bytes) : Bool := (v.all fun b => 32 ≤ b) && noNonCharSeq v
+
+/-- the part of `printable` that the HTML readers need (HTML has no notion of non-characters):
+no C0 control byte. `printable v → noCtl v` (`printable_noCtl`). -/
+def noCtl (v : Bytes) : Bool := v.all fun b => 32 ≤ b
+
+/-- character data that an XML reader returns unchanged: `printable` plus TAB and LF (source
+directories and source lines may contain a TAB) -/
+def textSafe (v : Bytes) : Bool := (v.all fun b => 32 ≤ b || b == 9 || b == 10) && noNonCharSeq v
+
+/-- A conforming XML parser (expat) positioned just after the opening `"` of an attribute value:
+the value it reports and the input that follows the closing quote. XML 1.0 §2.11 then §3.3.3: line
+ends are normalised (CR LF and CR become LF), a literal TAB / LF becomes a blank, references are
+resolved; a raw `<`, an unknown or unterminated reference, or a character that is not an XML
+`Char` (raw or through a character reference) is a well-formedness error. -/
 def scanAttr (bs : Bytes) : Option (Bytes × Bytes) :=
   match splitAt1 34 bs with
   | none => none
   | some (raw, rest) =>
     if raw.contains 60 then none
-    else match unescapeEnt (raw.map normAttrByte) with
-      | some v => some (v, rest)
+    else match unescapeEnt ((eolNorm raw).map normAttrByte) with
+      | some v => if xmlCharsOk v then some (v, rest) else none
       | none => none
 
-/-- An XML parser positioned at the start of character data: the text it reports and the input
-after the `<` that ends it. -/
+/-- A conforming XML parser positioned at the start of character data: the text it reports and
+the input after the `<` that ends it. A raw `]]>` is an error, CR LF and CR are read as LF,
+references are resolved, characters that are not XML `Char`s are errors. -/
 def scanXmlText (bs : Bytes) : Option (Bytes × Bytes) :=
   match splitAt1 60 bs with
   | none => none
   | some (raw, rest) =>
     if containsSeq [93, 93, 62] raw then none
-    else match unescapeEnt raw with
-      | some v => some (v, rest)
+    else match unescapeEnt (eolNorm raw) with
+      | some v => if xmlCharsOk v then some (v, rest) else none
       | none => none
 
-/-- HTML tokenizer inside a double-quoted attribute value -/
+/-- HTML tokenizer inside a double-quoted attribute value (WHATWG §13.2.3.5 newline normalisation,
+then §13.2.5.36: up to the next `"`, character references resolved) -/
 def scanHtmlAttr (bs : Bytes) : Option (Bytes × Bytes) :=
   match splitAt1 34 bs with
   | none => none
   | some (raw, rest) =>
-    match unescapeEnt raw with
+    match unescapeEnt (eolNorm raw) with
     | some v => some (v, rest)
     | none => none
 
-/-- HTML tokenizer in the data state: the text up to the next `<` and what follows that `<` -/
+/-- HTML tokenizer in the data / RCDATA state: the text up to the next `<` and what follows that
+`<` (newlines normalised first, character references resolved) -/
 def scanHtmlText (bs : Bytes) : Option (Bytes × Bytes) :=
   match splitAt1 60 bs with
   | none => none
   | some (raw, rest) =>
-    match unescapeEnt raw with
+    match unescapeEnt (eolNorm raw) with
     | some v => some (v, rest)
     | none => none
 
@@ -355,5 +400,58 @@ def fileRowUrl (dirPrefix : Option Bytes) (item : Bytes) : Bytes :=
   match dirPrefix with
   | none => dotSlash ++ item ++ dotHtml
   | some q => if q = [] then dotSlash ++ item ++ dotHtml else q ++ [47] ++ item ++ dotHtml
+
+/-! ## The sinks of the HTML templates: every place where a name or source text reaches a page.
+
+| sink | template | value | model |
+|---|---|---|---|
+| page title | file.html 4, index.html 4: `<title>Grcov report - {{ current }} </title>` | file name / directory / `top_level` | `titleFrag` |
+| breadcrumb link + label | macros.html 16: `<li><a href="{{ parent.0 }}">{{ parent.1 }}</a></li>` | `gen_html` / `gen_dir_index` links, parent directory | `breadcrumbItem` |
+| active breadcrumb | macros.html 18: `<li class="is-active"><a href="#">{{ current }}</a></li>` | as the title | `currentItem` |
+| row link + row name | macros.html 40 (`stats_line`): `<th><a href="{{ url }}">{{ name }}</a></th>`, `url` built by index.html 23/25/31/33 | directory / file name | `rowLink` with `dirRowUrl` / `fileRowUrl` |
+| source line | file.html 40: `<pre class="has-background-{{ highlight_light }} py-0 px-2">{{ item.2 }}</pre>` | one line of the source file | `preLine` |
+
+Everything else that is interpolated is a number (`item.0`, `item.1`, the statistics), a fixed
+word chosen by the template (`kind`, `highlight`, `highlight_light`, `aria_label`, severities), the
+date, or `bulma_url | safe` (a constant of the configuration: CDN URL or `../`× depth +
+`bulma.min.css`; no name reaches it). All five sinks go through Tera's auto-escape (`html`). -/
+
+def titleOpen : Bytes := [60, 116, 105, 116, 108, 101, 62]                                    -- <title>
+def titleLead : Bytes := [71, 114, 99, 111, 118, 32, 114, 101, 112, 111, 114, 116, 32, 45, 32]  -- Grcov report -␣
+def titleClose : Bytes := [47, 116, 105, 116, 108, 101, 62]                                   -- /title>
+/-- `<li class="is-active"><a href="#">` -/
+def currentOpen : Bytes :=
+  [60, 108, 105, 32, 99, 108, 97, 115, 115, 61, 34, 105, 115, 45, 97, 99, 116, 105, 118, 101, 34, 62,
+   60, 97, 32, 104, 114, 101, 102, 61, 34, 35, 34, 62]
+def aLiClose : Bytes := [47, 97, 62, 60, 47, 108, 105, 62]                                    -- /a></li>
+def rowOpen : Bytes := [60, 116, 104, 62, 60, 97, 32, 104, 114, 101, 102, 61, 34]             -- <th><a href="
+def aThClose : Bytes := [47, 97, 62, 60, 47, 116, 104, 62]                                    -- /a></th>
+/-- `<pre class="has-background-` -/
+def preOpen1 : Bytes :=
+  [60, 112, 114, 101, 32, 99, 108, 97, 115, 115, 61, 34, 104, 97, 115, 45, 98, 97, 99, 107, 103, 114,
+   111, 117, 110, 100, 45]
+def preOpen2 : Bytes := [32, 112, 121, 45, 48, 32, 112, 120, 45, 50, 34, 62]                  -- ␣py-0 px-2">
+def preClose : Bytes := [47, 112, 114, 101, 62]                                               -- /pre>
+
+/-- `<title>Grcov report - {{ current }} </title>` -/
+def titleFrag (current : Bytes) : Bytes :=
+  titleOpen ++ titleLead ++ html current ++ [32] ++ [60] ++ titleClose
+
+/-- `<li class="is-active"><a href="#">{{ current }}</a></li>` -/
+def currentItem (current : Bytes) : Bytes := currentOpen ++ html current ++ [60] ++ aLiClose
+
+/-- `<th><a href="{{ url }}">{{ name }}</a></th>` -/
+def rowLink (url name : Bytes) : Bytes :=
+  rowOpen ++ html url ++ [34, 62] ++ html name ++ [60] ++ aThClose
+
+/-- `<pre class="has-background-{{ highlight_light }} py-0 px-2">{{ item.2 }}</pre>`; `cls` is one
+of the template's own words (`success-light`, `white`, `danger-light`) -/
+def preLine (cls text : Bytes) : Bytes := preOpen1 ++ cls ++ preOpen2 ++ html text ++ [60] ++ preClose
+
+/-- the markup-significant bytes `<` `>` `"` `'` -/
+def isMetaByte (b : Nat) : Bool := b == 60 || b == 62 || b == 34 || b == 39
+
+/-- the markup skeleton of a fragment: its `<` `>` `"` `'`, in order -/
+def metaOf (bs : Bytes) : Bytes := bs.filter isMetaByte
 
 end Grcov.Escape
